@@ -31,10 +31,10 @@ def pool_map(fn, jobs, chunksize=4):
 
 def families_e3(prop, tier, seed):
     fams = []
-    nmax = 4 if tier == 'quick' else 5
+    nmax = 5 if tier == 'quick' else 6
     fams.append(('exhaustive<=%d' % nmax, gram.exhaustive_family(nmax)))
     # description / indirection variants of the small exhaustive family
-    small = gram.exhaustive_family(3 if tier == 'quick' else 4)
+    small = gram.exhaustive_family(4 if tier == 'quick' else 5)
     var = []
     for g in small:
         e = g['variants'][0]
@@ -42,12 +42,12 @@ def families_e3(prop, tier, seed):
         var.append(gram.mk('cmd', gram.Seq(gram.Descr(gram.Alt(gram.Lit('x'), gram.Seq(gram.Lit('y'), e)), 'dd'), gram.Lit('z', 'dz'))))
         var.append(gram.mk('cmd', gram.Fb(gram.Lit('x'), gram.Seq(e, gram.Cmd('echo q')), gram.Ref('U'))))
     fams.append(('exhaustive-variants', var))
-    nrand = 150 if tier == 'quick' else 1500
+    nrand = 400 if tier == 'quick' else 4000
     fams.append(('random(seed=%d)' % seed, gram.random_family(seed, nrand)))
     fams.append(('descriptions', description_family(tier)))
     from . import regress
     fams.append(('regression shapes', [regress.HOPCROFT_SPLITTER]))
-    nloop = 400 if tier == 'quick' else 4000
+    nloop = 1000 if tier == 'quick' else 10000
     fams.append(('loop-heavy random(seed=%d)' % seed, gram.loop_heavy_family(seed, nloop)))
     if prop == 'C03':
         # all-states-accepting automata: every small tree wrapped in [ ] and ([ ])...
